@@ -601,8 +601,75 @@ def run(ctx):
                     ctx.bad(R_miss, "%s|%s|%s" % (f.path, tbl[0].split("::")[-1], c2.split("::")[-1]), "%s:%d" % (f.file, t2["ln"]),
                             "%s on the result of %s.%s" % (c2.split("::")[-1], tbl[0].split("::")[-1], c.split("::")[-1]),
                             "a stale/forged handle panics inside an extern \"C\" function (abort) instead of returning an error")
+            # the miss edge must lead to an error report: from the None successor every path to a return passes
+            # set_last_error(k != 0) (or hands over to a lookup in another table)
+            cfgm = mirg.Cfg(f)
+            blocks_ = f.mir["blocks"]
+            err_blocks = set()
+            ret_ty = st.ty(f.mir["locals"][0][0]) or ""
+            if ret_ty == "()":
+                # helper with no status to report (optional enrichment): nothing to decide
+                ctx.ok(R_miss, {"fn": f.path, "table": tbl[0].split("::")[-1], "op": c.split("::")[-1], "line": t["ln"], "note": "unit-returning helper"})
+                continue
+            # a failure value (false / 0 / null) returned on the miss path is an error report for these bool/handle APIs
+            for b3, blk in enumerate(blocks_):
+                for s3 in blk["s"]:
+                    if s3[0] == "=" and plocal(s3[1]) == 0 and not pproj(s3[1]) and s3[2][0] == "use" and mirg.op_int(s3[2][1]) == 0:
+                        err_blocks.add(b3)
+            for b3, t3 in mirg.iter_calls(f):
+                c3 = ncallee(t3) or ""
+                if c3.endswith("set_last_error") and t3["a"] and (mirg.op_int(t3["a"][0]) or 0) != 0:
+                    err_blocks.add(b3)
+                if c3.endswith("set_last_error") and t3["a"] and mirg.op_int(t3["a"][0]) is None:
+                    err_blocks.add(b3)        # computed error code
+                if re.search(r"HashMap::(get|get_mut|remove|contains_key)$", c3) and b3 != bb:
+                    err_blocks.add(b3)
+            # follow the Option to the branch on it
+            opt = {res}
+            none_targets = []
+            for _ in range(4):
+                for b3, blk in enumerate(blocks_):
+                    for s3 in blk["s"]:
+                        if s3[0] == "=" and s3[2][0] in ("use",) and op_local(s3[2][1]) in opt and not pproj(s3[2][1][1]):
+                            opt.add(plocal(s3[1]))
+                    t3 = blk["t"]
+                    if t3["k"] == "call" and t3["a"] and op_local(t3["a"][0]) in opt:
+                        c3 = ncallee(t3) or ""
+                        if re.search(r"Option::(and_then|map|filter|as_ref|as_mut|as_deref|as_deref_mut|cloned|copied|take|or_else|ok_or|ok_or_else)$", c3) or c3.endswith("Try>::branch"):
+                            opt.add(plocal(t3["d"]))
+                        if re.search(r"Option::is_some$", c3):
+                            for b4, blk4 in enumerate(blocks_):
+                                if blk4["t"]["k"] == "switch" and op_local(blk4["t"]["d"]) == plocal(t3["d"]):
+                                    none_targets += [x for v, x in blk4["t"]["ts"] if v == 0]
+                        if re.search(r"Option::is_none$", c3):
+                            for b4, blk4 in enumerate(blocks_):
+                                if blk4["t"]["k"] == "switch" and op_local(blk4["t"]["d"]) == plocal(t3["d"]):
+                                    none_targets.append(blk4["t"]["o"])
+            for b3, blk in enumerate(blocks_):
+                for s3 in blk["s"]:
+                    if s3[0] == "=" and s3[2][0] == "discr" and plocal(s3[2][1]) in opt:
+                        dl = plocal(s3[1])
+                        if blk["t"]["k"] == "switch" and op_local(blk["t"]["d"]) == dl:
+                            listed = [v for v, _x in blk["t"]["ts"]]
+                            if 0 in listed:
+                                none_targets += [x for v, x in blk["t"]["ts"] if v == 0]
+                            elif listed == [1]:
+                                none_targets.append(blk["t"]["o"])
+            miss_bad = False
+            for nt in none_targets:
+                rets = cfgm.returns()
+                okp, w_ = cfgm.must_pass(err_blocks, rets, start=nt)
+                if nt in err_blocks:
+                    okp = True
+                if not okp:
+                    miss_bad = True
+            if miss_bad and not bad:
+                bad = True
+                ctx.bad(R_miss, "%s|%s|miss-not-reported" % (f.path, tbl[0].split("::")[-1]), "%s:%d" % (f.file, t["ln"]),
+                        "when %s.%s finds no entry a return is reachable without set_last_error(<error code>)" % (tbl[0].split("::")[-1], c.split("::")[-1]),
+                        "a stale, closed or forged handle is reported as success instead of ERROR_INVALID_HANDLE")
             if not bad:
-                ctx.ok(R_miss, {"fn": f.path, "table": tbl[0].split("::")[-1], "op": c.split("::")[-1], "line": t["ln"]})
+                ctx.ok(R_miss, {"fn": f.path, "table": tbl[0].split("::")[-1], "op": c.split("::")[-1], "line": t["ln"], "miss_edges": len(none_targets)})
 
     # explicit panics across the FFI boundary
     R_unw = ctx.rule("C19.no-unwrap-across-ffi", "no unwrap/expect in the FFI crate except on Mutex::lock (a panic inside extern \"C\" aborts the caller's process)", floor=25)
